@@ -27,42 +27,43 @@ type Failure struct {
 }
 
 type Result struct {
-	Property    string           `json:"property"`
-	Seed        int64            `json:"seed"`
-	Tier        string           `json:"tier"`
-	Evaluations int              `json:"evaluations"`
-	Nontrivial  int              `json:"distinct_nontrivial"`
-	CoqCases    int              `json:"coq_cases"`
-	Shards      int              `json:"shards"`
-	Counters    map[string]int   `json:"distribution"`
-	Samples     []interface{}    `json:"samples"`
-	Failures    []Failure        `json:"failures"`
-	FailCount   map[string]int   `json:"failure_counts"`
-	Notes       []string         `json:"notes"`
+	Property    string            `json:"property"`
+	Seed        int64             `json:"seed"`
+	Tier        string            `json:"tier"`
+	Evaluations int               `json:"evaluations"`
+	Nontrivial  int               `json:"distinct_nontrivial"`
+	CoqCases    int               `json:"coq_cases"`
+	Shards      int               `json:"shards"`
+	Counters    map[string]int    `json:"distribution"`
+	Samples     []interface{}     `json:"samples"`
+	Failures    []Failure         `json:"failures"`
+	FailCount   map[string]int    `json:"failure_counts"`
+	Notes       []string          `json:"notes"`
 	CaseInputs  map[string]string `json:"-"`
 }
 
 type Ctx struct {
-	Property string
-	Seed     int64
-	Tier     string
-	Rng      *rand.Rand
-	OutDir   string
-	Replay   string // path of a replay file, or ""
+	Property  string
+	Seed      int64
+	Tier      string
+	Rng       *rand.Rand
+	OutDir    string
+	Replay    string // path of a replay file, or ""
 	CorpusDir string
+	Repo      string // root of the ontology source tree the harness was built against
 
-	res       Result
-	distinct  map[[32]byte]struct{}
-	shard     []string
-	shardMeta []string
-	caseIdx   int
-	coqModule string
-	coqHeader string
-	out       *bufio.Writer
-	outF      *os.File
-	meta      *bufio.Writer
-	metaF     *os.File
-	shardSize int
+	res        Result
+	distinct   map[[32]byte]struct{}
+	shard      []string
+	shardMeta  []string
+	caseIdx    int
+	coqModule  string
+	coqHeader  string
+	out        *bufio.Writer
+	outF       *os.File
+	meta       *bufio.Writer
+	metaF      *os.File
+	shardSize  int
 	maxSamples int
 }
 
@@ -70,7 +71,7 @@ type Driver func(*Ctx)
 
 var registry = map[string]Driver{}
 
-func Register(id string, d Driver) { registry[id] = d }
+func Register(id string, d Driver)    { registry[id] = d }
 func Lookup(id string) (Driver, bool) { d, ok := registry[id]; return d, ok }
 func Registered() []string {
 	var ids []string
@@ -104,8 +105,9 @@ func (c *Ctx) N(quick, thorough int) int {
 
 // CoqModule declares which Corr module the case file imports and the name of the
 // case type / mismatch function: the file will contain
-//   From Ont Require Import <module>.
-//   Definition cases_k : list case := [...]. Definition M_k := Eval vm_compute in mismatches <base> cases_k.
+//
+//	From Ont Require Import <module>.
+//	Definition cases_k : list case := [...]. Definition M_k := Eval vm_compute in mismatches <base> cases_k.
 func (c *Ctx) CoqModule(module string) {
 	c.coqModule = module
 }
